@@ -27,6 +27,7 @@ type c09Case struct {
 	SplitEach int   `json:"split_every"`  // every n-th request is a split MGET over two nodes (0 = never)
 	Second    bool  `json:"second_client"`
 	Burst     int   `json:"burst_behind_slow_head,omitempty"` // >0: a head request answered after 300 ms, this many fast requests right behind it, then silence
+	SlowPartnerMs int `json:"slow_partner_ms,omitempty"`      // >0: four clients each send GET a; MGET a c in one write, node C answers this late: GET's reply must not wait for the MGET
 }
 
 const c09Delta = time.Second
@@ -53,6 +54,11 @@ func c09Gen(t *rapid.T) c09Case {
 	}
 	c.SplitEach = rapid.SampledFrom([]int{0, 0, 3, 10}).Draw(t, "split")
 	c.Second = rapid.Bool().Draw(t, "second")
+	if rapid.IntRange(0, 6).Draw(t, "partnermode") == 0 {
+		c.SlowPartnerMs = rapid.IntRange(1500, 2200).Draw(t, "partnerms")
+		c.Nodes, c.SplitEach, c.Second, c.DurMs = 3, 0, false, c.SlowPartnerMs+400
+		return c
+	}
 	if rapid.IntRange(0, 5).Draw(t, "burstmode") == 0 {
 		c.Burst = rapid.SampledFrom([]int{200, 1023, 1024, 1025, 1500, 3000}).Draw(t, "burst")
 		c.Nodes = rapid.IntRange(2, 3).Draw(t, "burstnodes")
@@ -125,6 +131,12 @@ func c09Run(f *Fixture, c *c09Case) ([]Discrepancy, bool) {
 		l := c.LatMs[latIdx%len(c.LatMs)]
 		latIdx++
 		latMu.Unlock()
+		if c.SlowPartnerMs > 0 {
+			l = 0
+			if req.Node == 2 {
+				l = c.SlowPartnerMs
+			}
+		}
 		if c.Burst > 0 {
 			l = 0
 			if k := req.Key(1); len(k) > 4 && k[len(k)-4:] == "r0k0" {
@@ -146,6 +158,9 @@ func c09Run(f *Fixture, c *c09Case) ([]Discrepancy, bool) {
 	if c.Second {
 		nclients = 2
 	}
+	if c.SlowPartnerMs > 0 {
+		nclients = 4
+	}
 	streams := make([]*c09Stream, nclients)
 	var wg sync.WaitGroup
 	for ci := 0; ci < nclients; ci++ {
@@ -161,6 +176,20 @@ func c09Run(f *Fixture, c *c09Case) ([]Discrepancy, bool) {
 		go func(ci int) {
 			defer wg.Done()
 			end := time.Now().Add(time.Duration(c.DurMs) * time.Millisecond)
+			if c.SlowPartnerMs > 0 {
+				ka := refmodel.KeyInSlot(slots[0], fmt.Sprintf("c%dr0k0", ci))
+				kb := refmodel.KeyInSlot(slots[0]+1, fmt.Sprintf("c%dr1k0", ci))
+				kc := refmodel.KeyInSlot(slots[2], fmt.Sprintf("c%dr1k1", ci))
+				s.keys = append(s.keys, ka, kb)
+				now := time.Now()
+				s.sentAt = append(s.sentAt, now, now)
+				if err := cl.Write(append(refmodel.EncodeCmdS("get", ka), refmodel.EncodeCmdS("mget", kb, kc)...)); err == nil {
+					s.nreq = 2
+				}
+				time.Sleep(time.Until(end))
+				s.sendDone = time.Now()
+				return
+			}
 			for i := 0; time.Now().Before(end) && i < 20000; i++ {
 				if c.Burst > 0 && i > c.Burst {
 					break // silence after the burst
@@ -271,6 +300,9 @@ func c09Run(f *Fixture, c *c09Case) ([]Discrepancy, bool) {
 		if c.Burst > 0 && judged >= c.Burst {
 			allNT = true
 		}
+		if c.SlowPartnerMs > 0 && judged >= 2 {
+			allNT = true
+		}
 	}
 	return ds, allNT
 }
@@ -294,6 +326,9 @@ func TestC09(t *testing.T) {
 		cls := []string{fmt.Sprintf("gap-%dus", c.GapUs), fmt.Sprintf("nodes-%d", c.Nodes)}
 		if c.Burst > 0 {
 			cls = append(cls, "burst-behind-slow-head")
+		}
+		if c.SlowPartnerMs > 0 {
+			cls = append(cls, "completed-reply-ahead-of-a-slow-split-request")
 		}
 		if nt {
 			cls = append(cls, "always-outstanding")
